@@ -203,12 +203,12 @@ func TestC06(t *testing.T) {
 
 // C07 (simulated part): replace debounces to the newest job; the delay gates the start.
 func TestC07Sim(t *testing.T) {
-	cfg := &Cfg{Prop: "C07", MaxPipelines: 2, MaxTasks: 2, DelayPct: 75, ReplacePct: 70,
-		LimitChoices: []int{-1, 1, 1, 2, 3}, Weights: map[string]int{"schedule": 45, "cancel": 8, "finish": 22, "timer": 20, "hold": 1, "release": 2, "reload": 4},
+	cfg := &Cfg{Prop: "C07", MaxPipelines: 2, MaxTasks: 2, DelayPct: 75, ReplacePct: 70, Retention: true,
+		LimitChoices: []int{-1, 1, 1, 2, 3}, Weights: map[string]int{"schedule": 45, "cancel": 8, "finish": 22, "timer": 20, "hold": 1, "release": 2, "reload": 4, "saveRetention": 4},
 		ReloadKinds: []string{"strategy", "strategy", "limit"},
 		Armed:       map[string]bool{"C07": true}}
 	runHistories(t, histOpts{cfg: cfg, failPct: 10,
-		rule:       "histories over pipelines with start_delay (timer expiry delivered by the harness through StartDelayedJob, also late and out of order) and the replace strategy; oracle: no start before the job's timer, a replaced job never starts, only the most recently queued job is replaced, a job whose delay expired starts when a slot is free (quiescent obligation), after the drain the newest accepted job ran unless canceled; reloads only switch the strategy or the queue limit, so that replace also meets queues of several waiting jobs; non-trivial = a burst of >=3 requests inside one delay window under replace, or a timer that expired while the pipeline was busy; distinct by action trace",
+		rule:       "histories over pipelines with start_delay (timer expiry delivered by the harness through StartDelayedJob, also late and out of order) and the replace strategy; oracle: no start before the job's timer, a replaced job never starts, only the most recently queued job is replaced, a job whose delay expired starts when a slot is free (quiescent obligation), after the drain the newest accepted job ran unless canceled; reloads only switch the strategy or the queue limit, so that replace also meets queues of several waiting jobs; pipelines may have retention settings (periods down to 20 ms) with saves in between, which must never take a waiting job away; non-trivial = a burst of >=3 requests inside one delay window under replace, or a timer that expired while the pipeline was busy; distinct by action trace",
 		nontrivial: func(c map[string]int) bool { return c["replaced"] >= 2 || c["timer:while-busy"] > 0 }})
 }
 
@@ -248,12 +248,12 @@ func TestC16(t *testing.T) {
 
 // C10 (simulated part): restart from any persisted snapshot recovers a consistent, faithful state.
 func TestC10Sim(t *testing.T) {
-	cfg := &Cfg{Prop: "C10", MaxPipelines: 2, MaxTasks: 3, DelayPct: 30, ReplacePct: 20, CyclicPct: 5, AllowFailPct: 25, ContinuePct: 40, DiskStore: true, RichPayload: true,
+	cfg := &Cfg{Prop: "C10", MaxPipelines: 2, MaxTasks: 3, DelayPct: 30, ReplacePct: 20, CyclicPct: 5, AllowFailPct: 25, ContinuePct: 40, DiskStore: true, RichPayload: true, Retention: true, CountOnly: true,
 		LimitChoices: []int{-1, -1, 2, 3, 0}, Weights: map[string]int{"schedule": 32, "cancel": 10, "finish": 30, "timer": 8, "hold": 4, "release": 5, "restart": 9, "reload": 5},
 		ReloadKinds: []string{"rewire", "rewire", "script", "allowFailure", "addTask", "removeTask", "env", "delay", "conc"},
 		Armed:       map[string]bool{"C10": true}}
 	runHistories(t, histOpts{cfg: cfg, failPct: 30,
-		rule: "simulator histories over a real JsonDataStore, with reloads that edit the tasks of a pipeline (dependencies, scripts, allow_failure, tasks added and removed) between a job's end and the restart, with rich payloads (variables of every JSON shape incl. non-integer numbers, odd users, error texts, exit codes over int16); at generated points (any state: loops held, tasks mid-run, jobs waiting with pending timers) the reported state of every job is recorded (Go API at full precision and /job/detail JSON), the store is saved and a second runner is built from the same directory; oracle: every job terminal, running/waiting ones canceled, every pipeline schedulable and not running, id set unchanged, finished jobs reported field by field as before (flags, timestamps, tasks with status/exit code/error, variables by deep equality, user, last error); non-trivial = a probe whose snapshot holds a finished job and a running or waiting job, in a history with a failed task or a non-integer number; distinct by action trace",
+		rule: "simulator histories over a real JsonDataStore, with reloads that edit the tasks of a pipeline (dependencies, scripts, allow_failure, tasks added and removed) between a job's end and the restart, with retention counts on some pipelines (a save applies them, a load must not), with rich payloads (variables of every JSON shape incl. non-integer numbers, odd users, error texts, exit codes over int16); at generated points (any state: loops held, tasks mid-run, jobs waiting with pending timers) the reported state of every job is recorded (Go API at full precision and /job/detail JSON), the store is saved and a second runner is built from the same directory; oracle: every job terminal, running/waiting ones canceled, every pipeline schedulable and not running, id set unchanged, finished jobs reported field by field as before (flags, timestamps, tasks with status/exit code/error, variables by deep equality, user, last error); non-trivial = a probe whose snapshot holds a finished job and a running or waiting job, in a history with a failed task or a non-integer number; distinct by action trace",
 		nontrivial: func(c map[string]int) bool {
 			return c["restart:with-finished"] > 0 && (c["restart:with-running"] > 0 || c["restart:with-waiting"] > 0) && (c["restart:with-failed-task"] > 0 || c["payload:non-integer-number"] > 0)
 		}})
